@@ -1,8 +1,16 @@
 (* Frame reasoning for AppInv: extensionality in the shared state, disjointness of the frames of different
    claims, and the generic "all but thread t" / closing lemmas every step case goes through. *)
-Require Import V.Base.MachineInt V.Generated.GenConsts V.Model.LogBase V.Model.Descriptor V.Proofs.DescriptorProofs
-               V.Model.Sched V.Model.AppenderThreads V.Proofs.TailArith V.Proofs.FragArith V.Proofs.AppenderInv
-               V.Proofs.AppenderLemmas.
+Require Import V.Base.MachineInt.
+Require Import V.Generated.GenConsts.
+Require Import V.Model.LogBase.
+Require Import V.Model.Descriptor.
+Require Import V.Proofs.DescriptorProofs.
+Require Import V.Model.Sched.
+Require Import V.Model.AppenderThreads.
+Require Import V.Proofs.TailArith.
+Require Import V.Proofs.FragArith.
+Require Import V.Proofs.AppenderInv.
+Require Import V.Proofs.AppenderLemmas.
 From Coq Require Import ZifyBool.
 Open Scope Z_scope.
 
